@@ -670,6 +670,7 @@ func (ospf *OSPFv3) DecodeFromBytes(data []byte, df gopacket.DecodeFeedback) err
 		return fmt.Errorf("OSPF Version 3 packet length %d exceeds data length %d", ospf.PacketLength, len(data))
 	}
 
+	ospf.Content = nil // packet types without a case below carry no content
 	switch ospf.Type {
 	case OSPFHello:
 		if len(data) < 36 {
